@@ -114,6 +114,25 @@ def _run_case(case, ctx):
         ctx.violation("tape-roundtrip", form, "READER-RAISED:%s" % type(e).__name__, dict(wit, error=str(e)[:100]), prop="C06")
         return
     ok = compare_listing(ctx, "C06", "tape-roundtrip", form, listed, specs, wit)
+    if ok and listed:
+        # second generation: the files just listed are themselves a list of files - write them to a new tape and list again
+        # (what a tape-to-tape copy and --append do); the reference parser judges the second tape too
+        try:
+            c2 = CassetteFile()
+            c2.add_files(listed)
+            again = CassetteFile(buffer=list(c2.get_buffer())).list_files()
+            ctx.mon("reader.list_files.second-generation")
+            ok = compare_listing(ctx, "C06", "tape-roundtrip", form + ".second-generation", again, specs, wit)
+            if ok:
+                ref2 = RT.parse(bytes(c2.get_buffer()))
+                for a_, b_ in zip(ref2, specs):
+                    if (a_["load"], a_["exec"], a_["data"]) != (b_["load"], b_["exec"], bytes.fromhex(b_["data"])):
+                        ctx.violation("tape-roundtrip", form + ".second-generation", "FIELD:re-written-header-or-data", dict(wit, got=(a_["load"], a_["exec"]), want=(b_["load"], b_["exec"])), {}, prop="C06")
+                        ok = False
+                        break
+        except Exception as e:
+            ctx.violation("tape-roundtrip", form + ".second-generation", "READER-RAISED:%s" % type(e).__name__, dict(wit, error=str(e)[:100]), prop="C06")
+            ok = False
     ctx.outcome("ok" if ok else "mismatch")
     if ok:
         if ctx.prop != "C14":
